@@ -615,3 +615,58 @@ def c01_reader(**p):
         c.note("tucan2", s2)
         c.oblige("strings-equal", str_eq(s1, s2))
     return body
+
+
+# ---------------------------------------------------------------------------
+# concrete legs: graph_from_file (I/O) and a 999-atom V2000 file (three-digit fields filled to the last column)
+
+def c07_file(**p):
+    def body(c):
+        import os
+        import tempfile
+        from tucan.io import graph_from_file
+        variant = c.choice("variant", 3)
+        atoms = list(FIXED_ATOMS)
+        text = v3000_text(atoms, FIXED_BONDS, eol="\r\n" if variant == 1 else "\n", split=(0, 12) if variant == 2 else None)
+        d = tempfile.mkdtemp(prefix="c07file", dir="/tmp")
+        path = os.path.join(d, "m.mol")
+        try:
+            with open(path, "w", newline="") as f:
+                f.write(text)
+            g = graph_from_file(path)
+        finally:
+            os.remove(path)
+            os.rmdir(d)
+        check_atoms(c, g, FIXED_EXPECT)
+        check_bonds(c, g, FIXED_WANT)
+    return body
+
+
+def c08_big(**p):
+    """999 atoms (the largest V2000 file): a chain with charges, radicals and isotopes on the last atoms,
+    125 M  ISO lines of 8 entries; V2000 vs V3000 graphs and strings."""
+    n = p.get("n", 999)
+
+    def body(c):
+        kind = c.choice("kind", 2)
+        els = ["C"] * n
+        iso = [(a + 1, 13 + (a % 2)) for a in range(n)] if kind == 0 else [(n, 14), (n - 1, 13)]
+        chg = [(n, -1), (1, 3)]
+        rad = [(n - 2, 2)]
+        al = [v2000_atom_line("C", (float(a % 100), float(a // 100), 0.0)) for a in range(n)]
+        bl = [v2000_bond_line(a + 1, a + 2, 1 + (a % 3)) for a in range(n - 1)]
+        pl = fixed_lines("CHG", chg) + fixed_lines("RAD", rad) + fixed_lines("ISO", iso)
+        t2 = v2000_text(al, bl, pl)
+        a3 = []
+        for a in range(n):
+            props = [(K, v) for K, ents in (("CHG", chg), ("RAD", rad), ("MASS", iso)) for (i, v) in ents if i == a + 1]
+            a3.append(A3(a + 1, "C", (float(a % 100), float(a // 100), 0.0), props))
+        b3 = [B3(a + 1, 1 + (a % 3), a + 1, a + 2) for a in range(n - 1)]
+        t3 = v3000_text(a3, b3)
+        read = T()["read"]
+        g2, g3 = read(t2), read(t3)
+        key = lambda g: ([(d.get("element_symbol"), d.get("chg", 0), d.get("rad", 0), d.get("mass", 0)) for _, d in g.nodes(data=True)],
+                         sorted((min(u, v), max(u, v), d.get("bond_type")) for u, v, d in g.edges(data=True)))
+        c.oblige("same-graph-from-v2000-and-v3000", key(g2) == key(g3) and g2.number_of_nodes() == n)
+        c.oblige("same-tucan-string", tucan_of(g2) == tucan_of(g3))
+    return body
